@@ -21,9 +21,12 @@ def run(ctx, b, broken):
     ctx.notes["exhaustive"] = True
     tmp = tempfile.mkdtemp(prefix="verif_c19_")
     try:
-        tdsrc = os.path.join(tmp, "tds.c")
-        open(tdsrc, "w").write("#include <_fake_typedefs.h>\n")
-        tds = [e.name for e in pycparser.parse_file(tdsrc, use_cpp=True, cpp_args=["-I" + fake]).ext if isinstance(e, c_ast.Typedef)]
+        # every typedef name written in the header's text, whatever conditional surrounds it
+        tds = []
+        for line in open(os.path.join(fake, "_fake_typedefs.h")):
+            m = re.match(r"\s*typedef\s+.*?\b(\w+)\s*;\s*(?://.*|/\*.*)?$", line)
+            if m:
+                tds.append(m.group(1))
         # argument assembly: model vs implementation (capturing the command line)
         captured = []
         orig = pycparser.check_output
@@ -78,7 +81,8 @@ def run(ctx, b, broken):
             ctx.evaluations += 1
             ctx.count("suite:subsets")
             try:
-                ast = pycparser.parse_file(src, use_cpp=True, cpp_args=["-I" + fake])
+                dl = ctx.rng.choice(["-std=c99", "-std=c11", "-std=gnu99", "-std=gnu11"])
+                ast = pycparser.parse_file(src, use_cpp=True, cpp_args=[dl, "-I" + fake])
                 names = {e.name for e in ast.ext if isinstance(e, c_ast.Decl)}
                 if not all(f"v_{i}" in names for i in range(len(tds))):
                     su.violation("\n".join(sub), "a typedef name of _fake_typedefs.h was not usable as a type")
